@@ -43,6 +43,7 @@ func (v *VMValue) ToJSONRaw(save map[*VMValue]bool) ([]byte, error) {
 				return nil, errors.New("值错误: 序列化时检测到循环引用")
 			}
 			save[v] = true
+			defer delete(save, v)
 			attrJson, err := cd.Attrs.toJSONRaw(save)
 			if err != nil {
 				return nil, err
@@ -59,6 +60,7 @@ func (v *VMValue) ToJSONRaw(save map[*VMValue]bool) ([]byte, error) {
 			return nil, errors.New("值错误: 序列化时检测到循环引用")
 		}
 		save[v] = true
+		defer delete(save, v)
 		ad, _ := v.ReadArray()
 		lst := [][]byte{}
 		for _, i := range ad.List {
@@ -83,6 +85,7 @@ func (v *VMValue) ToJSONRaw(save map[*VMValue]bool) ([]byte, error) {
 			return nil, errors.New("值错误: 序列化时检测到循环引用")
 		}
 		save[v] = true
+		defer delete(save, v)
 		cd := v.MustReadDictData()
 
 		dictJson, err := cd.Dict.toJSONRaw(save)
